@@ -44,6 +44,20 @@ func main() {
 				stride = 1
 			}
 			sliderTableOps(o, stride)
+		case "eval":
+			evalOps(o, seed, n, corpus+"/fens.txt")
+		case "evalc":
+			evalcOps(o, seed, n, corpus+"/fens.txt")
+		case "see":
+			seeOps(o, seed, n, corpus+"/fens.txt")
+		case "tt":
+			ttOps(o, seed, n)
+		case "order":
+			orderOps(o, seed, n, corpus+"/fens.txt")
+		case "time":
+			timeOps(o, seed, n)
+		case "go":
+			goOps(o, seed, n)
 		default:
 			usage()
 		}
